@@ -16,7 +16,8 @@ from props import PROPS
 
 COV = ["-fprofile-instr-generate", "-fcoverage-mapping", "-DVERIF_COVERAGE"]
 for f in ("asan", "sched", "fuzz"):
-    verif.FLAVOURS[f + "cov"] = verif.FLAVOURS[f] + COV
+    # (with -fsanitize=thread clang updates the counters atomically, which would turn every counter into a decision point of vsched)
+    verif.FLAVOURS[f + "cov"] = verif.FLAVOURS[f] + COV + (["-fprofile-update=single"] if f == "sched" else [])
     verif.LINK[f + "cov"] = verif.LINK[f] + ["-fprofile-instr-generate"]
 
 
@@ -68,6 +69,10 @@ def main():
                     cmd = [b, "--seed", "1", "--w", "0", "--W", "1", "--cases", str(n), "--maxsize", str(part["tiers"]["quick"].get("maxsize", 40)), "--out", d, "--time", "300"] + verif.part_args(prop, part)
                 r = subprocess.run(cmd, env=env, cwd=d, stdout=subprocess.PIPE, stderr=subprocess.STDOUT)
                 print("[cov] %s/%s rc=%d" % (prop, part["name"], r.returncode), file=sys.stderr)
+                if r.returncode:
+                    print(r.stdout.decode(errors="replace")[-1500:], file=sys.stderr)
+                    fc = os.path.join(d, "fail.case")
+                    if os.path.exists(fc): print(open(fc).read()[:600], file=sys.stderr)
             raws = [os.path.join(work, f) for f in os.listdir(work) if f.endswith(".profraw")]
             if not raws:
                 print("%s: no profile written" % prop)
